@@ -1,6 +1,6 @@
 """Black-box LSP client for the real `gold-lang-lsp --stdio` binary (engine E-bb).
 The binary is rebuilt from /repo's current working tree into a target dir under /verif/harness."""
-import json, os, subprocess, threading, time
+import json, os, queue, subprocess, threading, time
 from . import core
 
 BIN_TARGET = os.path.join(core.HARNESS, "target-repo")
@@ -37,8 +37,28 @@ class Session:
         self.closed = False
         self._t1 = threading.Thread(target=self._read_stdout, daemon=True)
         self._t2 = threading.Thread(target=self._read_stderr, daemon=True)
+        # writes go through a thread: a server that stops reading its input (a blocked main loop) must show up as
+        # missing responses, not block the check
+        self._outbox = queue.Queue()
+        self._t3 = threading.Thread(target=self._write_stdin, daemon=True)
         self._t1.start()
         self._t2.start()
+        self._t3.start()
+
+    def _write_stdin(self):
+        while True:
+            data = self._outbox.get()
+            if data is None:
+                try:
+                    self.proc.stdin.close()
+                except Exception:
+                    pass
+                return
+            try:
+                self.proc.stdin.write(data)
+                self.proc.stdin.flush()
+            except Exception:
+                return
 
     def _read_stdout(self):
         f = self.proc.stdout
@@ -77,12 +97,8 @@ class Session:
             pass
 
     def send(self, obj):
-        try:
-            self.proc.stdin.write(frame(obj))
-            self.proc.stdin.flush()
-            return True
-        except Exception:
-            return False
+        self._outbox.put(frame(obj))
+        return True
 
     def request(self, id_, method, params):
         return self.send({"jsonrpc": "2.0", "id": id_, "method": method, "params": params})
@@ -115,10 +131,7 @@ class Session:
         self.request(shutdown_id, "shutdown", None)
         r = self.wait_response(shutdown_id, timeout)
         self.notify("exit", None)
-        try:
-            self.proc.stdin.close()
-        except Exception:
-            pass
+        self._outbox.put(None)
         try:
             rc = self.proc.wait(timeout)
         except subprocess.TimeoutExpired:
@@ -129,6 +142,7 @@ class Session:
         return r, rc
 
     def kill(self):
+        self._outbox.put(None)
         try:
             self.proc.kill()
             self.proc.wait()
